@@ -13,6 +13,8 @@ fn slot_churn(sim: &Sim, n: u32) {
         return;
     }
     let mut hist: std::collections::VecDeque<calloop::RegistrationToken> = std::collections::VecDeque::new();
+    // the churn's own sources take generations the model does not record
+    sim.st.borrow_mut().churned = true;
     let before = h.verif_stats().occupied_slots;
     for i in 0..n {
         let t = match h.insert_source(Timer::from_duration(std::time::Duration::from_secs(3600)), |_, _, _: &mut crate::sim::Tag| TimeoutAction::Drop) {
